@@ -353,6 +353,7 @@ class SymEval:
         self.inline_free = False      # with an inline set: also inline functions that are not members of a class
         self.round_products = False   # a product of two non-constants (outside fma) is a fresh "rounded" symbol
         self.copysign_model = 'fork'  # or 'sgn': copysign(a, b) = |a| sgn(b) as symbols
+        self.watch = set()            # ids of ConditionalOperator nodes whose chosen arm and value are recorded
         self.preset_outs = {}         # name of a variable handed to an uninterpreted call by address -> constant
 
     # ------------------------------------------------------------------ driver
@@ -368,6 +369,7 @@ class SymEval:
             self.absof = {}
             self.fresh = 0
             self.pure_cache = {}
+            self.watched = []
             self.calls = []
             self.steps = 0
             fr = Frame(fn, thiskey, {}, 0)
@@ -391,6 +393,7 @@ class SymEval:
             paths.append(Path(outcome, ret, self.env, self.eqs, self.periods, self.absof))
             paths[-1].pure = dict(self.pure_cache)
             paths[-1].calls = list(self.calls)
+            paths[-1].watched = list(self.watched)
             paths[-1].pure_args = dict(self.pure_args)
             if len(paths) > self.max_paths:
                 raise Unsupported('more than %d paths in %s' % (self.max_paths, fn.q))
@@ -734,7 +737,11 @@ class SymEval:
         if k in ('BinaryOperator', 'CompoundAssignOperator'):
             return self.binop(fr, nid, n)
         if k == 'ConditionalOperator':
-            return self.ev(fr, n['then']) if self.cond(fr, n['cond']) else self.ev(fr, n['else'])
+            took = self.cond(fr, n['cond'])
+            v = self.ev(fr, n['then']) if took else self.ev(fr, n['else'])
+            if (f.file, nid) in self.watch or nid in self.watch:
+                self.watched.append((nid, 'then' if took else 'else', v, f))
+            return v
         if k in ('CallExpr', 'CXXMemberCallExpr', 'CXXOperatorCallExpr'):
             return self.call(fr, nid, n)
         if k == 'CXXThrowExpr':
@@ -783,6 +790,9 @@ class SymEval:
             args = [(-a if (a.t and not a.is_const() and sorted(a.t.items())[0][1] < 0) else
                      (Poly.const(abs(a.const_value())) if a.is_const() else a)) for a in args]
         key = '%s(%s)' % (name, ', '.join(a.show() for a in args))
+        if len(key) > 4000:
+            # nested names grow geometrically inside iterations: fall back to a short fresh symbol
+            key = self.newsym(name + '..')
         self.pure_cache[key] = Poly.sym(key)
         self.pure_args[key] = (name, list(args))
         return self.pure_cache[key]
@@ -1070,6 +1080,8 @@ class SymEval:
             vals.append(self.ev(fr, a))
         if all(isinstance(v, Poly) for v in vals):
             tag = '%s(%s)' % (ce.get('name'), ', '.join(v.show() for v in vals))
+            if len(tag) > 4000:
+                tag = self.newsym(str(ce.get('name')) + '..')
         else:
             tag = self.newsym(str(ce.get('name')))
         self.calls.append((ce.get('q'), vals, tag))
